@@ -14,7 +14,7 @@ import (
 
 // C01 - messages arrive intact across every protocol, codec and compression pairing.
 
-const ruleC01 = "rapid draws a Scenario {config: target protocol subset x codec list x compression list; client: one of 6 wire forms, method, codec, JSON style, compression, per-frame compressed flags, 0..4 schema-driven messages; backend: 0..4 response messages, compression, per-frame flags, trailers}. One case in six places the service message limit on a field boundary of a highly compressible message (compressed form fits, plain form does not). Two cases in three run under the instrumented buffer pool (tag verif: released buffers are overwritten with 0xA5 and handed out again first). Configurations may register a second service with other options, before or after. Oracle: independent decoders on both sides; a fully valid exchange with a compliant backend answering OK must end OK; OK outcome => backend saw exactly the sent sequence and client saw exactly the produced sequence; error outcome => prefixes only. Non-trivial = backend invoked with a (protocol,codec,compression) triple different from the client's and at least one non-default message; distinct by hash(form, triples, message bytes)."
+const ruleC01 = "rapid draws a Scenario {config: target protocol subset x codec list x compression list; client: one of 6 wire forms, method, codec, JSON style, compression, per-frame compressed flags, 0..4 schema-driven messages; backend: 0..4 response messages, compression, per-frame flags, trailers}. One case in six places the service message limit on a field boundary of a highly compressible message (compressed form fits, plain form does not). Two cases in three run under the instrumented buffer pool (tag verif: released buffers are overwritten with 0xA5 and handed out again first). Configurations may register a second service with other options (and a type resolver of its own), before or after, and draw the GET URL limit; one case in thirty is a client stream without a single message toward a REST upload binding; backends may prepare their response headers before reading the request and close the request body twice. Oracle: independent decoders on both sides; a fully valid exchange with a compliant backend answering OK must end OK; OK outcome => backend saw exactly the sent sequence and client saw exactly the produced sequence; error outcome => prefixes only. Non-trivial = backend invoked with a (protocol,codec,compression) triple different from the client's and at least one non-default message; distinct by hash(form, triples, message bytes)."
 
 func init() { registerScenarioProp("C01", ruleC01, checkC01) }
 
